@@ -37,6 +37,8 @@ InitW(cap) ==
     skipped |-> <<>>,      \* mandatory entries that were passed over (lost unless they show up later = reordered)
     last    |-> NoRec,     \* last record queued for this instance (kernel tail merge)
     ck      |-> EmptyFn,   \* rename cookie -> name of the Rename event
+    ckseq   |-> EmptyFn,   \* rename cookie -> sequence number of its MOVED_FROM record
+    fromSeqs |-> <<>>,     \* sequence numbers of the MOVED_FROM records this Watcher saw since the stream was last drained
     phase   |-> "open",    \* open | closing (Close called, not yet returned) | closed
     evc     |-> FALSE, errc |-> FALSE,
     nq      |-> 0,         \* records queued since the stream was last known to be drained
@@ -129,7 +131,7 @@ ApplyRec(ws, r, s, maxq, unordered) ==
             ELSE [ws EXCEPT !.exp = Append(@, ent), !.room = IF certain THEN @ - 1 ELSE @,
                             !.mq = IF ent.min = 1 THEN Append(@, Len(ws.exp) + 1) ELSE @]
       w2 == IF HasBit(vis, IN_MOVED_FROM) /\ r.ck # 0
-            THEN [w1 EXCEPT !.ck = (r.ck :> name) @@ @] ELSE w1
+            THEN [w1 EXCEPT !.ck = (r.ck :> name) @@ @, !.ckseq = (r.ck :> s) @@ @, !.fromSeqs = Append(@, s)] ELSE w1
       w3 == IF e.st = "ending" /\ e.how = "move" /\ (HasBit(r.m, IN_DELETE_SELF) \/ ign)
             THEN [w2 EXCEPT !.flags = @ \cup {"msgone"}] ELSE w2
       w4 == IF isEnd /\ e.st = "live"
@@ -200,13 +202,22 @@ CloseLag(ws, seq) ==
   LET G == {i \in DOMAIN ws.uw : ws.uw[i].st = "ending" /\ ws.uw[i].endSeq <= seq} IN
   IF G = {} THEN ws ELSE [ws EXCEPT !.uw = Without(@, G)]
 
+\* how many other moves out were recorded between the two halves of this move (moves made by several threads)
+MovesBetween(ws, x) ==
+  IF x.ck \notin DOMAIN ws.ckseq THEN 0
+  ELSE Cardinality({q \in 1..Len(ws.fromSeqs) : ws.fromSeqs[q] > ws.ckseq[x.ck] /\ ws.fromSeqs[q] < x.seq})
+\* The order of the Watcher's own queue is not known for operations made concurrently; when more than ten moves were
+\* made at once, ten or more other moves out may lie between the halves of one move - beyond the ten-slot cookie ring.
+MissingFrom(ws, x) == IF "manymoves" \in ws.flags \/ MovesBetween(ws, x) >= 10
+                      THEN "renamed_from_missing:more_than_ten_concurrent_moves" ELSE "renamed_from_missing"
+
 Consume(ws, v, j) ==
   LET x  == ws.exp[j]
       w1 == PassOver(ws, j)
       \* the old name is owed only if the Rename half of the same move was delivered (it may have been dropped
       \* legitimately together with its watch)
       w2 == IF v.from # <<>> /\ v.from # x.from THEN Bad(w1, {"C11"}, "renamed_from_wrong")
-            ELSE IF v.from = <<>> /\ x.from # <<>> /\ x.ck \in ws.seenCk THEN Bad(w1, {"C11"}, "renamed_from_missing")
+            ELSE IF v.from = <<>> /\ x.from # <<>> /\ x.ck \in ws.seenCk THEN Bad(w1, {"C11"}, MissingFrom(ws, x))
             ELSE IF HasBit(x.op, OpRename) /\ x.ck # 0 THEN [w1 EXCEPT !.seenCk = @ \cup {x.ck}]
             ELSE w1
       w3 == IF x.sup THEN Bad(w2, {"C09", "C02"}, "remove_reported_although_parent_listed") ELSE w2
@@ -229,7 +240,7 @@ RecvEv(ws0, v) ==
            x == ws.bag[q2]
            w1 == Note([ws EXCEPT !.bag = SubSeq(@, 1, q2 - 1) \o SubSeq(@, q2 + 1, Len(@))], "concurrent_ops")
        IN {IF v.from # <<>> /\ v.from # x.from THEN Bad(w1, {"C11"}, "renamed_from_wrong")
-           ELSE IF v.from = <<>> /\ x.from # <<>> THEN Bad(w1, {"C11"}, "renamed_from_missing")
+           ELSE IF v.from = <<>> /\ x.from # <<>> THEN Bad(w1, {"C11"}, MissingFrom(ws, x))
            ELSE IF x.from # <<>> THEN Note(w1, "rename_pair") ELSE w1}
   ELSE
      LET sk == {q \in 1..Len(ws.skipped) : Match(ws.skipped[q], v)} IN
@@ -280,7 +291,7 @@ Settle(ws) ==
             THEN Bad(w1, {"C01", "C10"}, "overflow_not_reported") ELSE w1
       G  == {i \in DOMAIN ws.uw : ws.uw[i].st = "ending"}
   IN [w2 EXCEPT !.exp = <<>>, !.eh = 0, !.mq = <<>>, !.bag = <<>>, !.skipped = <<>>, !.last = NoRec, !.nq = 0, !.ovf = FALSE,
-                !.dropped = FALSE, !.gotOvf = 0, !.uw = Without(@, G), !.flags = {}, !.seenCk = {}, !.ovfFion = -1, !.room = 0]
+                !.dropped = FALSE, !.gotOvf = 0, !.uw = Without(@, G), !.flags = {}, !.seenCk = {}, !.ovfFion = -1, !.room = 0, !.fromSeqs = <<>>]
 
 ---------------------------------------------------------------------------
 (* API calls. *)
